@@ -122,6 +122,7 @@ class Resolver:
     def __init__(self, fn):
         self.fn = fn
         self.vars = {}
+        self.range_vars = set()
         self.var_decl_stmt = {}
         for n in fn.nodes():
             if n.get("k") == "Decl":
@@ -130,10 +131,27 @@ class Resolver:
                     self.var_decl_stmt[v["d"]] = n
             elif n.get("k") == "ForRange" and n.get("var"):
                 self.vars[n["var"]["d"]] = n["var"]
+                self.range_vars.add(n["var"]["d"])      # the element of the iteration: a root, not an alias of the hidden iterator
         self._cache = {}
+        self._assigned = None
 
     def var(self, d):
         return self.vars.get(d)
+
+    _SCALAR = re.compile(r"^(const )?(unsigned |signed |long |short )*(int|long|short|char|bool|double|float|std::size_t|size_t|FEAT::Index|Index|std::uint\w+|std::int\w+)\b[^<>:]*$")
+
+    def _single_def_scalar(self, v):
+        """a scalar / pointer local that is initialised once and never assigned afterwards"""
+        if self._assigned is None:
+            self._assigned = assigned_decls(self.fn)
+            # address taken / passed by non-const reference: not tracked, so be conservative on '&v'
+            for n in self.fn.nodes():
+                if n.get("k") == "Un" and n.get("op") == "&" and n["e"].get("k") == "Ref":
+                    self._assigned.add(n["e"].get("d"))
+        if v["d"] in self._assigned:
+            return False
+        t = self.fn.type(v.get("t")) if v.get("t") is not None else ""
+        return bool(self._SCALAR.match(t.strip())) or t.rstrip().endswith("*") or t.rstrip().endswith("*const") or t.rstrip().endswith("* const")
 
     def init_of(self, ref):
         """initialiser of the local a Ref node refers to, looking through single-arg copy/move constructions"""
@@ -148,7 +166,7 @@ class Resolver:
             depth += 1
             if n.get("k") == "Ref" and n.get("dk") == "local":
                 v = self.vars.get(n.get("d"))
-                if v is not None and v.get("const") and not v.get("ref") and v.get("init") is not None:
+                if v is not None and not v.get("ref") and v.get("init") is not None and (v.get("const") or self._single_def_scalar(v)):
                     n = v["init"]
                     continue
             if n.get("k") == "Call" and n.get("callee") in MOVE_FNS and n.get("a"):
@@ -178,7 +196,7 @@ class Resolver:
             dk = n.get("dk")
             if dk == "local":
                 v = self.vars.get(n.get("d"))
-                if v is not None and v.get("ref") and v.get("init") is not None:
+                if v is not None and v.get("ref") and v.get("init") is not None and n.get("d") not in self.range_vars:
                     p = self._path(v["init"], depth + 1)
                     return Path(p.steps, p.decls | {n["d"]}, p.text)
                 return Path((("local", n.get("d")),), text=n.get("n"))
@@ -303,12 +321,18 @@ def branch_fact(fn, cfg, bid, frozen_ok):
         return None
     c = fn.by_id(b["cond"])
     truth = True
+    while c is not None and c.get("k") == "Bin" and c.get("op") in ("&&", "||"):
+        c = c["rhs"]            # short-circuit operators are split by the CFG: this block tests the last operand
     while c is not None and c.get("k") == "Un" and c.get("op") == "!":
         c = c["e"]
         truth = not truth
     if c is not None and c.get("k") == "Ref" and c.get("dk") in ("param", "local") and c.get("d") not in frozen_ok:
         return (c["d"], truth)
     return None
+
+
+class _Out(dict):
+    """block -> states at block end; .to_exit: block -> states flowing along a feasible edge into EXIT"""
 
 
 def propagate(fn, init, step, edge_step=None):
@@ -319,7 +343,8 @@ def propagate(fn, init, step, edge_step=None):
     cfg = fn.cfg
     assigned = assigned_decls(fn)
     inn = {b: set() for b in cfg.blocks}
-    out = {b: set() for b in cfg.blocks}
+    out = _Out((b, set()) for b in cfg.blocks)
+    out.to_exit = {b: set() for b in cfg.blocks}      # states that really flow along the edge block -> EXIT (feasible branch only)
     inn[cfg.entry].add((init, frozenset()))
     work = [cfg.entry]
     done = {b: set() for b in cfg.blocks}
@@ -345,6 +370,8 @@ def propagate(fn, init, step, edge_step=None):
                         continue          # infeasible: contradicts an earlier branch on the same variable
                     f2 = facts | {(d, val)}
                 t2 = edge_step(b, k, t) if edge_step is not None else t
+                if sb == cfg.exit:
+                    out.to_exit[b].add((t2, f2))
                 if (t2, f2) not in inn[sb]:
                     inn[sb].add((t2, f2))
                     work.append(sb)
@@ -416,3 +443,44 @@ def after_on_all_paths(fn, anchor, pred):
             return False
         st.extend(cfg.succ.get(b, []))
     return True
+
+
+def unmodelled_mutable_uses(fn, rs, root, after=None, modelled=()):
+    """calls (executed after `after` on some path, if given) that receive `root` or an object derived from it in a mutable position
+    (non-const receiver in statement position, non-const reference parameter) and whose name is not in `modelled`:
+    the effect a rule is looking for may be achieved there"""
+    cfg = fn.cfg
+    par = parents(fn)
+    out = []
+    reach = None
+    if after is not None and cfg is not None and cfg.block_of(after["i"]) is not None:
+        b0, pos = cfg.block_of(after["i"])
+        reach = set(cfg.reachable(b0))
+    for n in fn.nodes():
+        if not is_call(n) or n is after or n.get("callee") in MOVE_FNS or n.get("callee") == "FEAT::assertion":
+            continue
+        nm = callee_name(n)
+        if nm in modelled:
+            continue
+        if reach is not None:
+            w = cfg.block_of(n.get("i")) if "i" in n else None
+            if w is None or w[0] not in reach or (w[0] == b0 and w[1] <= pos and not _in_cycle(cfg, b0)):
+                continue
+        hit = False
+        recv = receiver(n)
+        for a, pn_, pt_ in call_args_with_params(n, fn):
+            if a is recv:
+                continue
+            if pt_ is not None and is_nonconst_ref(pt_) and rs.path(a).startswith(root):
+                hit = True
+        if recv is not None and not n.get("cconst") and n.get("k") in ("MCall", "OpCall") and rs.path(recv).startswith(root):
+            pr = par.get(id(n))
+            if pr is not None and pr[0].get("k") in ("Block", "If", "For", "While", "Do", "ForRange"):
+                hit = True
+        if hit:
+            out.append(n)
+    return out
+
+
+def _in_cycle(cfg, b):
+    return any(b in cfg.reachable(s) for s in cfg.succ.get(b, []))
